@@ -106,7 +106,7 @@ pub fn run_chunk(seed: u64, lo: usize, hi: usize) {
                 let mut orc = crate::refeval::Oracle::default();
                 let env = |v: fidget_core::var::Var| p[var_id(v, &dag.vs) as usize];
                 arena_vals.push(crate::refeval::eval_arena(&dag.ctx, &env, &mut orc));
-                if orc.tainted { tainted += 1; skip_pt[pi] = true; continue; }
+                if orc.tainted || orc.zero_hashed { tainted += 1; skip_pt[pi] = true; continue; }
                 let (a, _) = point_eval(&vm, &dag.vs, p).unwrap();
                 let (b, _) = point_eval(&jit, &dag.vs, p).unwrap();
                 if b.len() != a.len() { bad.push(format!("kind=shape jit point returned {} outputs, interpreter {}", b.len(), a.len())); continue; }
